@@ -284,3 +284,33 @@ pub fn ln_return<T: Scalar>(h: &[T]) -> Option<T> {
     }
     Some((h[h.len() - 1] / h[h.len() - 2]).ln())
 }
+
+/// The reference models against hand-computed values (from the property statements and
+/// from the repository's own scripted tests), at the exact scalar. Run before every check.
+pub fn self_test() -> Result<(), String> {
+    use crate::q::Q;
+    use num::Float;
+    Q::reset();
+    let v = |xs: &[f64]| -> Vec<Q> { xs.iter().map(|x| Q::of(*x)).collect() };
+    let r = Q::from_ratio;
+    let ck = |name: &str, ok: bool| if ok { Ok(()) } else { Err(format!("reference self-test failed: {}", name)) };
+    ck("mean", mean(&v(&[1.0, 2.0, 3.0])) == r(2, 1))?;
+    ck("sample variance", sample_var(&v(&[1.0, 2.0, 3.0])) == r(1, 1) && sample_var(&v(&[5.0])) == r(0, 1))?;
+    ck("population variance", pop_var(&v(&[1.0, 2.0, 3.0])) == r(2, 3))?;
+    ck("window", window(&[1, 2, 3, 4], 2) == [3, 4] && window(&[1], 3) == [1])?;
+    ck("hl", hl_norm(&v(&[0.0, 10.0, 5.0])) == r(0, 1) && hl_norm(&v(&[5.0, 5.0])) == r(0, 1) && hl_norm(&v(&[0.0, 4.0, 1.0])) == r(-1, 2))?;
+    ck("roc", roc(&v(&[100.0, 110.0]), 1) == Some(r(10, 1)) && roc(&v(&[0.0, 5.0]), 1).is_none() && roc(&v(&[2.0, 0.0, 3.0]), 1) == Some(r(-100, 1)))?;
+    ck("entropy", binary_entropy(&v(&[1.0, -1.0])) == r(1, 1) && binary_entropy(&v(&[1.0, 0.0])) == r(0, 1))?;
+    ck("rsi", rsi(&v(&[1.0, 2.0, 3.0]), 2) == Some(r(100, 1)) && rsi(&v(&[3.0, 2.0, 1.0]), 2) == Some(r(0, 1)) && rsi(&v(&[1.0, 3.0, 2.0]), 2) == Some(r(200, 3)) && rsi(&v(&[1.0]), 2).is_none())?;
+    ck("myrsi", my_rsi(&v(&[3.0, 2.0, 1.0]), 2) == Some(r(-1, 1)) && my_rsi(&v(&[1.0, 3.0, 2.0]), 2) == Some(r(1, 3)) && my_rsi(&v(&[1.0, 3.0, 3.0, 3.0]), 2) == Some(r(1, 1)))?;
+    ck("kendall", kendall_time(&v(&[1.0, 2.0, 3.0])) == r(1, 1) && kendall_time(&v(&[1.0, 1.0, 2.0])) == r(2, 3) && kendall_time(&v(&[2.0, 2.0, 2.0])) == r(0, 1))?;
+    ck("pearson", pearson_time(&v(&[1.0, 2.0, 3.0])) == r(1, 1) && pearson_time(&v(&[2.0, 2.0])) == r(0, 1) && (pearson_time(&v(&[1.0, 2.0, 4.0])).f() - 0.9819805060619659).abs() < 1e-12)?;
+    ck("cog", center_of_gravity(&v(&[2.0, 2.0, 2.0])) == r(0, 1) && center_of_gravity(&v(&[1.0, -1.0])) == r(0, 1) && center_of_gravity(&v(&[1.0, 3.0])) == r(1, 4))?;
+    ck("ema", ema(&v(&[1.0, 2.0]), r(2, 3)) == r(5, 3) && ema(&v(&[0.0, -1.0]), r(2, 3)) == r(-2, 3))?;
+    ck("drawdown", (drawdown(&v(&[100.0, 80.0, 110.0, 95.0, 87.0])).f() - 0.20909090909090908).abs() < 1e-15 && drawdown(&v(&[1.0, 2.0])) == r(0, 1))?;
+    ck("ln return", (ln_return(&v(&[100.0, 110.0])).unwrap().f() - 0.09531017980432493).abs() < 1e-15 && ln_return(&v(&[1.0])).is_none())?;
+    let (g, l) = gains_losses(&v(&[5.0, 1.0, 4.0, 4.0, 2.0]), 3);
+    ck("gains/losses over the 3 most recent values", g == r(3, 1) && l == r(2, 1))?;
+    Q::reset();
+    Ok(())
+}
